@@ -356,6 +356,8 @@ func c18Run(args []string) int {
 				r, err = e.call(e.fn["insert"], tb, val())
 			case "ins":
 				r, err = e.call(e.fn["insert"], tb, lua.LNumber(tokInt(op["pos"])), val())
+			case "insx": // more than three arguments
+				r, err = e.call(e.fn["insert"], tb, lua.LNumber(tokInt(op["pos"])), val(), lua.LNumber(9))
 			case "rem_end":
 				r, err = e.call(e.fn["remove"], tb)
 			case "rem":
